@@ -237,7 +237,9 @@ class WriterEval(object):
                 it = n.iter
                 if isinstance(it, ast.ListComp): it = it.generators[0].iter
                 if isinstance(it, ast.Attribute) and it.attr in ELEMENT_OF:
-                    self.vartype[n.target.id] = ELEMENT_OF[it.attr]
+                    cls = ELEMENT_OF[it.attr]
+                    if fi.module.name == 'mulgrids' and cls == 't2connection': cls = 'connection'
+                    self.vartype[n.target.id] = cls
                 if isinstance(it, ast.Attribute) and it.attr in ('node', 'column', 'pos', 'block') and isinstance(it.value, ast.Name) \
                    and it.value.id in self.vartype:
                     self.vartype[n.target.id] = {'node': 'node', 'column': 'column', 'block': 't2block'}.get(it.attr, None) \
